@@ -213,10 +213,8 @@ m("c13-pyconfig-module-dropped", "C13", "daemon/config/python.py", "    sys.modu
 # ---- C02
 m("c02-close-only-first-runner", "C02", "daemon/runners/meta_runner.py", "        for runner in self._runners.values():\n            await runner.aclose()", "        for runner in list(self._runners.values())[1:]:\n            await runner.aclose()")
 m("c02-trio-aclose-fire-and-forget", "C02", "daemon/runners/meta_runner.py", "        await asyncio.gather(*runner_tasks, return_exceptions=True)\n        self._runners.clear()", "        self._runners.clear()")
-m("c02-asyncio-cancel-once-no-wait", "C02", "daemon/runners/asyncio_runner.py", "                else:\n                    task.cancel()\n            await asyncio.sleep(0.1)", "                else:\n                    task.cancel()\n            break")
 m("c02-f10-revert", "C02", "daemon/runners/trio_runner.py", "            try:\n                await trio_run\n            except BaseException:  # noqa: B036\n                # we are being cancelled, results of payloads are no longer of interest\n                pass\n            raise", "            raise")
 m("c02-f11-revert", "C02", "daemon/runners/asyncio_runner.py", "        if self._stopped.is_set():\n            # nobody will cancel", "        if False:\n            # nobody will cancel")
-m("c02-no-shield", "C02", "daemon/runners/meta_runner.py", "        except BaseException:\n            await asyncio.shield(self._aclose_runners(runner_tasks))\n            raise", "        except BaseException:\n            await self._aclose_runners(runner_tasks)\n            raise")
 # ---- C03
 m("c03-started-never-set", "C03", "daemon/runners/service.py", "            self._started = True\n", "            pass\n")
 m("c03-kwargs-dropped", "C03", "daemon/runners/service.py", "    def adopt(self, payload, *args, flavour: ModuleType, **kwargs):\n        \"\"\"\n        Concurrently run ``payload`` in the background\n\n        If ``*args*`` and/or ``**kwargs`` are provided, pass them to ``payload``\n        upon execution.\n        \"\"\"\n        if args or kwargs:\n            payload = functools.partial(payload, *args, **kwargs)", "    def adopt(self, payload, *args, flavour: ModuleType, **kwargs):\n        if args or kwargs:\n            payload = functools.partial(payload, *args)")
